@@ -1,6 +1,6 @@
 (* C03: the logarithm, on units regenerated from cyecca/lie/group_so3.py *)
 From Coq Require Import Reals List Lra Lia.
-From Cyecca Require Import Base.Ops Base.Tactics Spec.Mat Gen.Series Gen.SO3Quat Gen.SO3Mrp Gen.SO3Dcm Proofs.SeriesFacts Proofs.C02.
+From Cyecca Require Import Base.Ops Base.Tactics Spec.Mat Gen.Series Gen.SO2 Gen.SE2 Gen.SO3Quat Gen.SO3Mrp Gen.SO3Dcm Proofs.SeriesFacts Proofs.C02.
 Import ListNotations.
 Local Open Scope R_scope.
 
@@ -195,4 +195,18 @@ Proof.
            2 * (qsign q0 1 * (q3 / 1) * (phi / sin phi)) * (2 * (qsign q0 1 * (q3 / 1) * (phi / sin phi))))
     with (4 * (qsign q0 1 * qsign q0 1) * (phi * phi) * ((q1 * q1 + q2 * q2 + q3 * q3) / (sin phi * sin phi))) by (field; lra).
   rewrite <- Hsin, Hss. field. lra.
+Qed.
+
+(* ---------- SE(2) ---------- *)
+(* log: translation through the inverse of V(theta) built from the same two series coefficients, heading returned as given *)
+Lemma se2_log_struct x y th :
+  SE2_log x y th = let a := hd 0 (series_1 th) in let b := hd 0 (series_3 th) in
+                   [a / (a * a + b * b) * x + b / (a * a + b * b) * y; a / (a * a + b * b) * y - b / (a * a + b * b) * x; th].
+Proof. cbv beta iota zeta delta [SE2_log series_1 series_3 hd]. list_eq; try reflexivity; congr_ring. Qed.
+(* log (exp v) = v for every heading and translation (both cells of the series), as long as V(theta) is invertible *)
+Lemma se2_log_exp x y th : hd 0 (series_1 th) * hd 0 (series_1 th) + hd 0 (series_3 th) * hd 0 (series_3 th) <> 0 ->
+  SE2_log_v (SE2_exp x y th) = [x; y; th].
+Proof.
+  intro H. rewrite se2_exp_struct. cbv zeta. cbv [SE2_log_v nth]. rewrite se2_log_struct. cbv zeta.
+  revert H. generalize (hd 0 (series_1 th)) (hd 0 (series_3 th)). intros a b H. list_eq; try reflexivity; field; exact H.
 Qed.
